@@ -41,6 +41,9 @@ RULE = (
     "'identity' pairs (target = another layout / class / permutation of the same located elements); RegridLinear "
     "(unstructured or masked source only, 2-3 D, never the structured RegularGridInterpolator path) with random "
     "affine fields (dyadic coefficients) and random fields, with and without fill_with_nearest; "
+    "payload dtype: float64, or (whole-numbered fields: 30 % of them; 45 % of the affine linear cases get an "
+    "integer-valued affine field whose interpolants at the targets are mostly not whole numbers) int64/int32/int16, "
+    "or float32 (7 %); "
     "'shifted' pairs: two structured grids (uniform / rectilinear / Esri, any layouts) of EQUAL dims and cell size "
     "(1/2..30) whose origins differ by whole cells and/or fractions of a cell, mostly at projected-coordinate "
     "magnitudes 1e5..1e7 (dyadic, exact), without explicit masks, RegridNearest; every case through "
@@ -400,6 +403,37 @@ def _gen_case(rng, kind):
         grad = [Fraction(rng.randint(-8, 8), 4) for _ in range(d)]
         affine = [fr(c0), [fr(a) for a in grad]]
         vals = [c0 + sum(a * x for a, x in zip(grad, p)) for p in slocs]
+    # dtype of the pushed payload: integer-valued fields are (often) stored with an integer dtype
+    dtype = None
+    r = rng.random()
+    if kind == "linaff" and r < 0.45:
+        # integer-valued affine field on the source locations whose interpolants at the targets are mostly NOT whole
+        # numbers (gradient = multiple of the source lattice's common denominator)
+        den = 1
+        for p in slocs:
+            for x in p:
+                den = den * x.denominator // int(np.gcd(den, x.denominator))
+        c0i = Fraction(rng.randint(-20, 20))
+        gradi = [Fraction(den * rng.choice([-3, -2, -1, 1, 2, 3])) for _ in range(d)]
+        fi = lambda p: c0i + sum(a * x for a, x in zip(gradi, p))  # noqa: E731
+        tl = own_locs(tgt)
+        if 3 * sum(1 for p in tl if fi(p).denominator != 1) < len(tl) and kind != "identity":
+            # target on a finer lattice around a source location
+            q0 = rng.choice(unm)
+            tdims = [rng.randint(2, {2: 5, 3: 3}[d]) for _ in range(d)]
+            tgt = {"cls": "uniform", "dims": tdims, "spacing": [fr(Fraction(rng.choice([3, 5, 7, 9, 13]), 2 * den)) for _ in range(d)],
+                   "origin": [fr(x - Fraction(rng.choice([1, 3, 5, 9]), 2 * den)) for x in q0], "inc": [rng.random() < 0.6 for _ in range(d)],
+                   "order": rng.choice("CF"), "rev": rng.random() < 0.5, "loc": rng.choice(["CELLS", "POINTS"])}
+            nt = int(np.prod(data_shape(tgt)))
+            tl = own_locs(tgt)
+        if 3 * sum(1 for p in tl if fi(p).denominator != 1) >= len(tl) and max(abs(fi(p)) for p in slocs) < 15000:
+            affine = [fr(c0i), [fr(a) for a in gradi]]
+            vals = [fi(p) for p in slocs]
+            dtype = rng.choice(["int64", "int64", "int32", "int16"])
+    if dtype is None and all(v.denominator == 1 for v in vals) and r < 0.3:
+        dtype = rng.choice(["int64", "int32", "int16"])
+    elif dtype is None and r > 0.93:
+        dtype = "float32"
     if isinstance(smask, list):
         # garbage under the mask
         vals = [(Fraction(rng.choice([1000, -999, 12345]) + i) if m else v) for i, (v, m) in enumerate(zip(vals, smask))]
@@ -435,7 +469,7 @@ def _gen_case(rng, kind):
             "via": "comp" if rng.random() < 0.3 else "bare", "tgrid": rng.choice(["adapter", "adapter", "info", "both"]),
             "sgrid": rng.choice(["info", "info", "both"]),
             "src": src, "tgt": tgt, "smask": smask, "src_ma": src_ma, "svals": [fr(v) for v in vals], "am": am, "down": down,
-            "affine": affine, "twin": isinstance(smask, list) and rng.random() < 0.5, "kind": kind}
+            "affine": affine, "twin": isinstance(smask, list) and rng.random() < 0.5, "kind": kind, "dtype": dtype}
 
 
 BIG_ORIGINS = [100000, 250000, 500000, 733000, 3400000, 5600000, 5812345, 9999000, 2 ** 20, 2 ** 23]
@@ -503,7 +537,8 @@ def _gen_shifted(rng):
     return {"method": "nearest", "fill": False, "reuse": None, "via": "comp" if rng.random() < 0.3 else "bare",
             "tgrid": rng.choice(["adapter", "adapter", "info", "both"]), "sgrid": rng.choice(["info", "info", "both"]),
             "src": src, "tgt": tgt, "smask": rng.choice(["flex", "flex", "none"]), "src_ma": False,
-            "svals": [fr(v) for v in perm], "am": am, "down": down, "affine": None, "twin": False, "kind": "shifted"}
+            "svals": [fr(v) for v in perm], "am": am, "down": down, "affine": None, "twin": False, "kind": "shifted",
+            "dtype": rng.choice([None, None, "int64", "int32"])}
 
 
 def _u(dims, **kw):
@@ -517,7 +552,7 @@ def _case(src, tgt, **kw):
     ns = int(np.prod(data_shape(src)))
     c = {"method": "nearest", "fill": False, "via": "bare", "tgrid": "adapter", "sgrid": "info", "src": src, "tgt": tgt,
          "smask": "flex", "src_ma": False, "svals": [fr(i + 1) for i in range(ns)], "am": None, "down": "flex",
-         "affine": None, "twin": False, "kind": "corpus", "reuse": None}
+         "affine": None, "twin": False, "kind": "corpus", "reuse": None, "dtype": None}
     c.update(kw)
     return c
 
@@ -566,6 +601,19 @@ CORPUS = [
     _case(_u([6, 5], origin=[fr(3400000), fr(5812345)], spacing=[fr(2), fr(2)], order="C", rev=True),
           _u([6, 5], origin=[fr(3400001), fr(5812346)], spacing=[fr(2), fr(2)], inc=[True, False]), kind="shifted"),
     _case(_u([9], origin=[fr(9999000)], loc="CELLS"), _u([9], origin=[fr(9999003)], loc="CELLS"), kind="shifted", am="none", down=None),
+    # integer-dtype payloads (seeded/C16_j): h = 5 + 3x + 2y is whole-numbered on the integer source lattice, stored as
+    # int64 / int32 / int16; the targets at multiples of 3/4 (resp. 1/2) need 7.25, 8.75, ... ; masked node holds -9999
+    _case(_u([3, 3]), _u([3, 3], spacing=[fr(Fraction(3, 4)), fr(Fraction(1, 2))], order="C", rev=True), method="linear",
+          smask=[False] * 4 + [True] + [False] * 4, src_ma=True,
+          svals=[fr(-9999 if (x, y) == (1, 1) else 5 + 3 * x + 2 * y) for x in range(3) for y in range(3)],
+          affine=[fr(5), [fr(3), fr(2)]], dtype="int64"),
+    _case({"cls": "upoints", "points": [[fr(x), fr(y)] for x, y in [(0, 0), (3, 0), (0, 3), (3, 3), (1, 2), (2, 1)]], "order": "C"},
+          _u([4, 4], spacing=[fr(Fraction(5, 4)), fr(Fraction(3, 4))], origin=[fr(Fraction(-1, 2)), fr(Fraction(1, 4))], loc="CELLS"),
+          method="linear", fill=True, svals=[fr(5 + 3 * x + 2 * y) for x, y in [(0, 0), (3, 0), (0, 3), (3, 3), (1, 2), (2, 1)]],
+          affine=[fr(5), [fr(3), fr(2)]], dtype="int32", via="comp"),
+    _case(_u([4, 3]), _u([5, 4], spacing=[fr(Fraction(3, 4)), fr(Fraction(1, 2))]), method="linear", smask=[False] * 12,
+          svals=[fr(-7 + 2 * x - 3 * y) for x in range(4) for y in range(3)], affine=[fr(-7), [fr(2), fr(-3)]], dtype="int16"),
+    _case(_u([4, 3]), _u([5, 4], spacing=[fr(Fraction(3, 4)), fr(Fraction(1, 2))]), dtype="int16"),
     # 1-D and 3-D
     _case(_u([6], inc=[False]), _u([4], spacing=[fr(Fraction(3, 2))], loc="CELLS")),
     _case(_u([3, 2, 2], order="C", rev=True, inc=[True, False, True]), _u([2, 2, 3], loc="CELLS", order="F")),
@@ -682,6 +730,9 @@ def _run_link(case, vals, grids=None):
     tpos = flat_pos(case["tgt"])
     smask = _py_mask(case["smask"], sshape)
     data = np.array([float(v) for v in vals], dtype=float).reshape(sshape)
+    if case.get("dtype"):
+        # payload stored with another dtype (integer dtypes only for whole-numbered fields: the cast is exact)
+        data = data.astype(case["dtype"])
     if case["src_ma"]:
         data = np.ma.array(data, mask=(smask if isinstance(smask, np.ndarray) else False))
     ada = _make_adapter(case, sg, tg)
@@ -999,6 +1050,7 @@ def distribution(cases, obss):
         "method": dict(Counter(c["method"] + ("+fill" if c["fill"] else "") for c in cases)),
         "kind": dict(Counter(c["kind"] for c in cases)),
         "via": dict(Counter(c["via"] for c in cases)),
+        "payload_dtype": dict(Counter(c["method"] + ":" + str(c.get("dtype") or "float64") for c in cases)),
         "grid_object_reuse": dict(Counter(("fresh" if not c.get("reuse") else
                                            c["reuse"]["mode"] + "/" + c["reuse"]["touch"] + "/" + "+".join(c["reuse"]["sides"]))
                                           for c in cases)),
@@ -1037,6 +1089,8 @@ def shrink_candidates(case):
         c = dict(case)
         c.update(kw)
         return c
+    if case.get("dtype"):
+        yield upd(dtype=None)
     if case.get("reuse"):
         yield upd(reuse=None)
         if len(case["reuse"]["sides"]) > 1:
